@@ -12,16 +12,22 @@ from . import dbg, proto
 BOUNDARY = [0, 1, 2, 3, 7, 100, 255, 256, 32767, 32768, 65535, 65536, 65537, 70000, 1000000]
 REG_SPELL = {0: ["R0", "r0"], 1: ["R1", "r1"], 2: ["R2"], 3: ["R3", "r3"], 7: ["R7"], 10: ["R10", "r10"], 11: ["Rt", "rt", "RT", "R11"],
              12: ["FP_alt", "fp_alt", "R12"], 13: ["PC_ret", "pc_ret", "R13"], 14: ["FP", "fp", "R14"], 15: ["SP", "sp", "R15"]}
-SYMS = ["top", "dat", "K1", "KN", "nosuch", "x_1", "pc", "PC", "Pc"]
+# (zero-valued symbols included: a label at instruction 0, a constant 0 and a constant defined by it are falsy ints)
+SYMS = ["top", "dat", "K1", "KN", "nosuch", "x_1", "pc", "PC", "Pc", "K0", "KA", "start", "KMAX", "KMIN"]
 PREC = {"+": 1, "-": 1, "*": 2, "/": 2}
 
 PROGRAM = """
 CONSTANT(K1, 300)
 CONSTANT(KN, -5)
+CONSTANT(K0, 0)
+CONSTANT(KA, K0)
+CONSTANT(KMAX, 65535)
+CONSTANT(KMIN, -32768)
 DLABEL(dat)
 INTEGER(17)
 INTEGER(-2)
 INTEGER(65535)
+LABEL(start)
 SET(R1, 40000)
 SET(R2, -7)
 SET(R3, 3)
